@@ -22,6 +22,9 @@ pub mod sync;
 
 // Internal utilities
 mod internal;
+/// Verification hook (`--cfg excsn_fibre_verif` only): runtime interface of the traced primitives.
+#[cfg(all(not(loom), excsn_fibre_verif))]
+pub use internal::sync::traced::rt as verif;
 mod sync_util;
 mod async_util;
 
